@@ -1,5 +1,6 @@
 import SFV.Model.Net
 import SFV.Model.Exec
+import SFV.Model.TfMachine
 import SFV.Model.Proto
 open SFV SFV.Proto SFV.Net
 
@@ -9,6 +10,7 @@ open SFV SFV.Proto SFV.Net
 `prov <spec>`   -> `<port>:<tag>><port>:<tag>,...` (sorted, duplicates removed) or `-`
 `status <spec>` -> `<node index>=<STATUS>,...`  final status of every node's step without failures
 `exec <spec> fail=<node index>` -> outcome of the executor protocol model (see SFV/Model/Exec.lean)
+`tfm <port>*`   -> `out=<tags in firing order>;left=<partial groups left>` of the operational grouping loop (TfMachine)
 
 spec words: `n=<nports>` `s:<port>:<val>` `c:<port>` `tf:<fn>:<k>:<ins>/<outs>` `cond:<m>:<r>:<z|d>:<ins>/<outs>`
 `exec:<k>:<ins>/<out>` `scatter:<inp>:<out>:<size>` `gather:<inp>:<size>:<out>:<depth>` `dot:<ins>/<outs>`
@@ -137,6 +139,16 @@ def handle : List String → String
           | some sp => Exec.showOutcome (Exec.runDefault sp none)
           | none => "bad-op"
       | _ => "bad-op"
+  | "tfm" :: ports =>
+      -- operational grouping loop on the real arrival orders: one word per port, comma separated tags (`-` = empty)
+      let parsePort (w : String) : Option (List Tok) :=
+        if w = "-" then some [] else (w.splitOn ",").mapM (fun t => (parseTag t).map (fun tg => ({ tag := tg, val := .int 0 } : Tok)))
+      match ports.mapM parsePort with
+      | some ls =>
+          let s := runRounds ls
+          let fired := s.out.map (fun g => renderTag g.1)
+          s!"out={if fired.isEmpty then "-" else ",".intercalate fired};left={s.map.length}"
+      | none => "bad-op"
   | _ => "bad-op"
 
 def main : IO Unit := runPure handle
